@@ -41,3 +41,32 @@ func init() {
 		propMeta[id] = m
 	}
 }
+
+// Wave 4 additions (seeded/README.md, "Wave 4").
+var addedRulesW4 = map[string]string{
+	"C01": " Channel creates for an unreachable resource may list alternate resource names (hosts that do answer); only the resource itself may be dialed.",
+	"C02": " IdP conditions also include a userinfo endpoint that answers after 1-20 s (valid or revoked; its answer is what counts); a third of the trials carry the signed-in browser's session cookie on the tunnel request (such connections are journaled without content).",
+	"C03": " User names also include *, user?, [a-z]*, user0|user1 and .* ; in a quarter of the authorised requests the authorised host itself is down (nothing else may be dialed).",
+	"C04": " The empty string (an empty first X-Forwarded-For element) is one of the non-literal client identifiers.",
+	"C05": " The mechanisms are listed in a drawn order and local may be spelled basic; the authenticate message on another connection may quote the first connection's id; 1 of 12 of those trials parks 1100 unfinished NTLM exchanges of other clients between the two messages of one client, which must still reach the handler.",
+	"C06": " A third of the runs use socket buffers that take only part of a write; a stall may last 3-20 s of simulated time; the host may close after its last write (everything it wrote must still reach the client) or reset in the middle of its script (prefixes only).",
+	"C07": " At most one special situation per run: two tunnels target one machine on different ports, the first of which is down; a legacy tunnel sends its second request only after another legacy tunnel has ended; one client never reads again once host data arrives (nothing is demanded for it, everything for the others). A transport that is never accepted is a violation.",
+	"C08": " 1 run in 10 uses payloads up to 65535 bytes (coalesced messages above 128 KiB); 1 in 5 has quiet periods of 31-75 s before one or two transport messages; on websocket 1 in 8 sends a well-formed packet inside a TEXT message, which must end the stream without effect.",
+	"C09": " Hosts may close after their script or reset; 1 run in 8 lets two websocket tunnels report the same connection id.",
+	"C10": " Hosts may close or reset while the client goes on.",
+	"C11": " For the data points the host may hang up or reset before the client side ends; a third of the packet-caused ends have 1-3 more packets in flight behind the one that ends the tunnel.",
+	"C12": " 1 run in 8 uses IdP access tokens of 2.5-8.5 KB (a login that fails for that reason issues nothing; a file that is issued must carry the token); client addresses include IPv6 with decimal last groups.",
+	"C13": " Expired ID tokens expired 2 s, 20 s, 59 s, 3 min or 10 min ago.",
+	"C14": " A correct proof inside an authenticate message with unusual flag sets (key exchange without key-length flag, with or without a session-key field) is followed on the same session by a message that names another user and reuses the first user's key.",
+	"C16": " Hosts may hang up or reset before the client closes; an accepted channel close must be answered with status 0 if it is answered.",
+	"C18": " 1 in 8 of the multi-mechanism draws writes the mechanisms as one comma separated item (one unknown name: nothing enabled); every started instance is probed without credentials and the refusal rules are applied to the mechanisms it actually challenges for.",
+	"C20": " TCP endpoints may be black-holed (connection attempts get no answer; bound = 15 s + 5 s per such endpoint); a quarter of the well-formed requests come from a client that half-closes after the request.",
+}
+
+func init() {
+	for id, a := range addedRulesW4 {
+		m := propMeta[id]
+		m.Rule += a
+		propMeta[id] = m
+	}
+}
